@@ -54,7 +54,8 @@ def make_case(seed, index, tier):
         producers.append({'name': 'p%d' % number, 'ops': ops})
     consumers = []
     for number in range(rng.randint(1, 5)):
-        consumers.append({'name': 'c%d' % number, 'mode': rng.choice(['get', 'get', 'iter']),
+        consumers.append({'name': 'c%d' % number,
+                          'mode': rng.choice(['get', 'get', 'iter', 'iter+get']),
                           'count': rng.randint(1, 5), 'offset': rng.choice(GRID),
                           'work': rng.choice([0, 0, 0.5, 1])})
     return {'seed': seed, 'index': index, 'tier': tier,
@@ -242,6 +243,16 @@ def build_for(case):
                             count += 1
                             if count >= spec['count']:
                                 break
+                            if spec['mode'] == 'iter+get' and count % 2 == 1:
+                                # a single get from inside the iteration over the same queue
+                                checker.get_start(name)
+                                try:
+                                    extra = await queue
+                                except StreamClosed:
+                                    checker.get_closed(name)
+                                else:
+                                    checker.got(name, extra)
+                                    checker.stats['gets_waited'] += 1
                             if spec['work']:
                                 await (time + spec['work'])
                             checker.get_start(name)
